@@ -43,6 +43,18 @@
 //!   pipeline/request-altered          an object query's fields are not all present in its response's `request`
 //!   inject/non-object, grid/degenerate   rekeyed panic / timeout on the historical witnesses
 //!   balance/not-a-partition           load balancing loses or duplicates a query
+//!   matcher/half-coordinate-pair-accepted   exactly one field of a coordinate pair under a map-matching plugin is not
+//!                                     answered with an error response
+//!
+//! Which checks catch which seeded changes (quick tier):
+//!   C06_flatten_not_all_arrays         C06 + C12: corpus_mixed_state / user-defined split plugin (correspondence + itemwise oracle)
+//!   C12_yens_spur_count_underflow      C12: corpus_ksp_input_classes + the k-shortest-paths fixtures (yens, grid+yens,
+//!                                      yens_edge_oriented) — batch/timeout (the harness is built without overflow checks:
+//!                                      `len() - 2` wraps and the search does not return; a debug build panics: batch/panic)
+//!   C12_destination_y_only_accepted    C12 (and C06): corpus_coordinate_pairs under vertex_rtree / edge_rtree, and the
+//!                                      generated `bad_coordinates` queries — matcher/half-coordinate-pair-accepted
+//!   C06_cache_key_round_half_cast, C06_cache_stores_adjusted_rate   NOT yet specific: absorbed into / next to the known
+//!                                      finding cache/order-dependent (a fine-precision cache run is still to be added)
 use crate::ctx::Ctx;
 use crate::jsonproto::{dec, enc, hex, unhex};
 use crate::rng::Rng;
@@ -361,6 +373,8 @@ pub struct Fixture {
     pub solution_limit: Option<usize>,
     pub app: CompassApp,
     pub label: String,
+    /// the `[algorithm]` section when it is not the default: a k-shortest-paths search ("yens" / "ksp_single_via")
+    pub ksp: Option<&'static str>,
 }
 
 pub fn config_toml(dir: &Path, parallelism: usize, traversal: Traversal, plugins: &[PluginSpec], persist: bool, edge_oriented: bool, solution_limit: Option<usize>) -> String {
@@ -1112,7 +1126,8 @@ fn valid_query(fx: &Fixture, rng: &mut Rng) -> GenQ {
     if rng.chance(1, 6) {
         m.insert("weights".into(), json!({"distance": rng.range(1, 3), "time": rng.range(0, 3)}));
     }
-    let expect = if !sure || fx.solution_limit.is_some() || fx.edge_oriented || (fx.matcher() && !exact) { Expect::Any } else { Expect::Ok };
+    // a k-shortest-paths search has no destination-less form ("attempting to run KSP algorithm without destination")
+    let expect = if !sure || fx.solution_limit.is_some() || fx.edge_oriented || (fx.matcher() && !exact) || (fx.ksp.is_some() && tree) { Expect::Any } else { Expect::Ok };
     GenQ { q: Value::Object(m), expect, kind: if tree { "valid_tree" } else { "valid_route" }, danger: None, fail_key: None }
 }
 
@@ -1141,6 +1156,7 @@ fn failing_query(fx: &Fixture, rng: &mut Rng) -> GenQ {
     let dkey = if fx.edge_oriented { "destination_edge" } else { "destination_vertex" };
     let direct = !fx.matcher();
     let mut unknown_origin = false;
+    let mut half_pair = false;
     let (kind, expect): (&'static str, Expect) = match rng.below(10) {
         0 if direct && !fx.edge_oriented => {
             m.insert(okey.into(), json!(o));
@@ -1195,6 +1211,11 @@ fn failing_query(fx: &Fixture, rng: &mut Rng) -> GenQ {
             match rng.below(4) {
                 0 => {
                     m.shift_remove(k);
+                    // exactly one field of a coordinate pair: a missing field, answered with an error response (a
+                    // matcher, or the haversine load balancer, reads the pair; seeded change
+                    // C12_destination_y_only_accepted) — both destination fields absent is a destination-less query
+                    let has = |k: &str| m.contains_key(k);
+                    half_pair = has("origin_x") != has("origin_y") || has("destination_x") != has("destination_y");
                 }
                 1 => {
                     m.insert(k.into(), junk(rng));
@@ -1208,7 +1229,7 @@ fn failing_query(fx: &Fixture, rng: &mut Rng) -> GenQ {
                     m.insert("origin_y".into(), json!(45.0));
                 }
             }
-            ("bad_coordinates", Expect::Any)
+            ("bad_coordinates", if half_pair && fx.matcher() { Expect::Err } else { Expect::Any })
         }
         8 => {
             // plugin-required field missing / ill-typed
@@ -1238,7 +1259,7 @@ fn failing_query(fx: &Fixture, rng: &mut Rng) -> GenQ {
             ("odd_weight_estimate", Expect::Any)
         }
     };
-    GenQ { q: Value::Object(m), expect, kind, danger: None, fail_key: if unknown_origin { Some("search/unknown-origin-accepted") } else { None } }
+    GenQ { q: Value::Object(m), expect, kind, danger: None, fail_key: if unknown_origin { Some("search/unknown-origin-accepted") } else if half_pair { Some("matcher/half-coordinate-pair-accepted") } else { None } }
 }
 
 fn non_object_query(fx: &Fixture, rng: &mut Rng) -> GenQ {
@@ -1481,6 +1502,9 @@ fn gen_query(fx: &Fixture, rng: &mut Rng, profile: Profile) -> GenQ {
     if fx.has_user() && rng.chance(3, 5) {
         return user_plugin_query(fx, rng);
     }
+    if fx.ksp.is_some() && rng.chance(1, 2) {
+        return ksp_query(fx, rng);
+    }
     let r = rng.below(100);
     match profile {
         Profile::C06 => match r {
@@ -1500,6 +1524,94 @@ fn gen_query(fx: &Fixture, rng: &mut Rng, profile: Profile) -> GenQ {
             _ => mutated_query(fx, rng),
         },
     }
+}
+
+/// origin / destination fields of a query under a k-shortest-paths fixture (no matcher): vertex ids, or — edge
+/// oriented — the first edge leaving `o` and the first edge entering `d` (`same_edge`: the origin edge itself)
+fn ksp_od(fx: &Fixture, o: u64, d: Option<u64>) -> Map<String, Value> {
+    let mut m = Map::new();
+    if fx.edge_oriented {
+        let oe = fx.net.edges.iter().position(|e| e.0 as u64 == o).map(|e| e as u64).unwrap_or(o);
+        m.insert("origin_edge".into(), json!(oe));
+        if let Some(d) = d {
+            let de = fx.net.edges.iter().position(|e| e.1 as u64 == d).map(|e| e as u64).unwrap_or(d);
+            m.insert("destination_edge".into(), json!(de));
+        }
+    } else {
+        m.insert("origin_vertex".into(), json!(o));
+        if let Some(d) = d {
+            m.insert("destination_vertex".into(), json!(d));
+        }
+    }
+    m
+}
+
+/// the input classes of C12 that decide the length of the best route, under a k-shortest-paths configuration
+fn ksp_corpus(fx: &Fixture) -> Vec<GenQ> {
+    let n = fx.net.n as u64;
+    let (a, b, _) = fx.net.edges[0];
+    let (a, b) = (a as u64, b as u64);
+    let mut out = vec![];
+    let mut push = |mut m: Map<String, Value>, k: Option<Value>, kind: &'static str| {
+        if let Some(k) = k {
+            m.insert("k".into(), k);
+        }
+        out.push(gq(Value::Object(m), Expect::Any, kind, None));
+    };
+    for k in [None, Some(json!(2)), Some(json!(5)), Some(json!(1)), Some(json!(0))] {
+        push(ksp_od(fx, a, Some(a)), k.clone(), "identical_od");
+        push(ksp_od(fx, a, Some(b)), k.clone(), "ksp_adjacent_od");
+    }
+    push(ksp_od(fx, b, Some(a)), Some(json!(4)), "ksp_valid");
+    push(ksp_od(fx, b, Some(b)), Some(json!(3)), "identical_od");
+    push(ksp_od(fx, a, Some(n - 1)), None, "unreachable_destination");
+    push(ksp_od(fx, a, Some(n - 2)), Some(json!(3)), "unreachable_destination");
+    push(ksp_od(fx, n - 1, Some(a)), None, "isolated_origin");
+    push(ksp_od(fx, a, Some(n + 5)), None, "unknown_id");
+    push(ksp_od(fx, 99_999, Some(a)), Some(json!(2)), "unknown_id");
+    push(ksp_od(fx, a, Some(u64::MAX)), None, "unknown_id");
+    push(ksp_od(fx, a, None), None, "ksp_no_destination");
+    push(ksp_od(fx, a, Some(b)), Some(json!("two")), "ksp_ill_typed_k");
+    push(ksp_od(fx, a, Some(b)), Some(json!(-1)), "ksp_ill_typed_k");
+    push(ksp_od(fx, a, Some(b)), Some(json!(2.5)), "ksp_ill_typed_k");
+    out
+}
+
+fn ksp_query(fx: &Fixture, rng: &mut Rng) -> GenQ {
+    let core = fx.core() as u64;
+    let n = fx.net.n as u64;
+    let o = rng.below(core as usize) as u64;
+    let e = fx.net.edges[rng.below(fx.net.edges.len())];
+    let (mut m, kind): (Map<String, Value>, &'static str) = match rng.below(9) {
+        0 | 1 => (ksp_od(fx, o, Some(o)), "identical_od"),
+        2 | 3 => (ksp_od(fx, e.0 as u64, Some(e.1 as u64)), "ksp_adjacent_od"),
+        4 => (ksp_od(fx, o, Some(if rng.chance(1, 2) { n - 1 } else { n - 2 })), "unreachable_destination"),
+        5 => {
+            let big = [n + 5, 99_999, 1u64 << 40, u64::MAX][rng.below(4)];
+            (if rng.chance(1, 2) { ksp_od(fx, big, Some(o)) } else { ksp_od(fx, o, Some(big)) }, "unknown_id")
+        }
+        6 => (ksp_od(fx, o, None), "ksp_no_destination"),
+        _ => (ksp_od(fx, o, Some((o + 1 + rng.below(core as usize - 1) as u64) % core)), "ksp_valid"),
+    };
+    match rng.below(8) {
+        0 => {
+            m.insert("k".into(), json!(0));
+        }
+        1 | 2 => {
+            m.insert("k".into(), json!(2 + rng.below(4)));
+        }
+        3 => {
+            m.insert("k".into(), json!(1));
+        }
+        4 => {
+            m.insert("k".into(), junk(rng));
+        }
+        _ => {}
+    }
+    if rng.chance(1, 4) {
+        m.insert("tag".into(), json!(format!("q{}", rng.below(1000))));
+    }
+    GenQ { q: Value::Object(m), expect: Expect::Any, kind, danger: None, fail_key: None }
 }
 
 /// bits -> lexeme of `json!(f64)` for every number that may be written as a weight estimate
@@ -1540,6 +1652,7 @@ fn fmt_table(fx: &Fixture, batch: &[Value]) -> String {
 // one case: plan the jobs, run them in the child, emit the correspondence lines, apply the oracle
 
 static DEAD_CHILDREN: std::sync::atomic::AtomicUsize = std::sync::atomic::AtomicUsize::new(0);
+static DEAD_BY_FIXTURE: Mutex<BTreeMap<String, usize>> = Mutex::new(BTreeMap::new());
 
 #[derive(Clone, Copy, PartialEq, Debug)]
 enum JobKind {
@@ -1682,9 +1795,16 @@ fn run_case(ctx: &mut Ctx, fx: &Fixture, persist_cfg: bool, gens: &[GenQ], plans
     // historical witness are run with a short fuse (they are reported all the same)
     let dead_so_far = DEAD_CHILDREN.load(std::sync::atomic::Ordering::Relaxed);
     let secs = if dead_so_far >= 4 && gens.iter().any(|g| g.danger.is_some()) { 2 } else { secs };
+    // a regression that makes the search of one configuration run without bound (seeded change
+    // C12_yens_spur_count_underflow in a build without overflow checks) kills a child per case: once two cases under a
+    // fixture have lost their child even with six times the limit, the finding is established and reported, and the
+    // remaining cases of that fixture run with a one-second fuse and without the retry (reported all the same)
+    let dead_here = DEAD_BY_FIXTURE.lock().map(|m| m.get(&fx.label).copied().unwrap_or(0)).unwrap_or(0);
+    let established = dead_here >= 2;
+    let secs = if established { 1 } else { secs };
     let mut rep = forked(fx, &batch, &jobs, true, secs);
     let suspicious = |r: &Report| !r.complete || r.jobs.iter().chain(r.alone.iter()).chain(r.alone_discard.iter()).any(|o| matches!(o, RunOut::Panic | RunOut::Dead));
-    if suspicious(&rep) {
+    if suspicious(&rep) && !established {
         // a loaded machine (alarm, fork or thread creation failing) must not turn into a finding: a defect of the
         // code is deterministic and shows again; once more, with six times the limit
         ctx.count("child_retried");
@@ -1693,6 +1813,9 @@ fn run_case(ctx: &mut Ctx, fx: &Fixture, persist_cfg: bool, gens: &[GenQ], plans
     }
     if !rep.complete {
         DEAD_CHILDREN.fetch_add(1, std::sync::atomic::Ordering::Relaxed);
+        if let Ok(mut m) = DEAD_BY_FIXTURE.lock() {
+            *m.entry(fx.label.clone()).or_insert(0) += 1;
+        }
     }
     let fmt = fmt_table(fx, &batch);
     let danger = gens.iter().find_map(|g| g.danger);
@@ -1723,6 +1846,8 @@ fn run_case(ctx: &mut Ctx, fx: &Fixture, persist_cfg: bool, gens: &[GenQ], plans
             "non_object" => Some("wrong_json_type"),
             "missing_origin" | "ill_typed_od" | "plugin_field" | "odd_weight_estimate" | "mutated" => Some("missing_or_ill_typed_fields"),
             "unknown_id" | "unreachable_destination" | "isolated_origin" => Some("out_of_range_ids"),
+            "ksp_adjacent_od" => Some("adjacent_origin_destination"),
+            "ksp_ill_typed_k" | "ksp_no_destination" => Some("missing_or_ill_typed_fields"),
             "bad_coordinates" => Some("out_of_range_coordinates"),
             "degenerate_grid" => Some("degenerate_grid_section"),
             "identical_od" => Some("identical_origin_destination"),
@@ -2037,15 +2162,55 @@ fn bal_queries(rng: &mut Rng, n: usize) -> Vec<Value> {
 
 #[allow(clippy::too_many_arguments)]
 fn make_fixture(root: &Path, id: usize, rng: &mut Rng, label: &str, plugins: Vec<PluginSpec>, traversal: Traversal, edge_oriented: bool, solution_limit: Option<usize>, parallelism: usize, persist: bool) -> Option<(Fixture, bool)> {
+    make_fixture_ext(root, id, rng, label, plugins, traversal, edge_oriented, solution_limit, parallelism, persist, &FxExtra::default())
+}
+
+/// what a fixture may set besides the arguments of `make_fixture`
+#[derive(Default)]
+struct FxExtra {
+    /// `[algorithm]`: (type, k, underlying type)
+    algorithm: Option<(&'static str, usize, &'static str)>,
+    /// replaces the `float_cache_policy` line of the energy vehicle
+    cache_line: Option<String>,
+    /// replaces the `real_world_energy_adjustment` of the energy vehicle
+    adjustment: Option<f64>,
+    /// posted speeds (km/h) to draw from, and the grades (decimal) of a grade table to write and configure
+    speeds: Option<Vec<f64>>,
+    grades: Option<Vec<f64>>,
+}
+
+fn make_fixture_ext(root: &Path, id: usize, rng: &mut Rng, label: &str, plugins: Vec<PluginSpec>, traversal: Traversal, edge_oriented: bool, solution_limit: Option<usize>, parallelism: usize, persist: bool, extra: &FxExtra) -> Option<(Fixture, bool)> {
     let dir = root.join(format!("fx{}", id));
     let n = 12 + rng.below(26);
-    let net = match traversal {
+    let net = match (traversal, &extra.speeds) {
+        (_, Some(sp)) => gen_net_speeds(rng, n, sp),
         // speeds (km/h, the unit the cache key is taken in) that share cache keys rounded to tens: 20, 20, 50, 50, 80, 80
-        Traversal::Energy { .. } => gen_net_speeds(rng, n, &[15.2, 24.4, 45.5, 54.4, 75.1, 84.8]),
+        (Traversal::Energy { .. }, _) => gen_net_speeds(rng, n, &[15.2, 24.4, 45.5, 54.4, 75.1, 84.8]),
         _ => gen_net(rng, n),
     };
     write_net(&dir, &net);
-    let toml = config_toml(&dir, parallelism, traversal, &plugins, persist, edge_oriented, solution_limit);
+    let mut toml = config_toml(&dir, parallelism, traversal, &plugins, persist, edge_oriented, solution_limit);
+    if let Some((ty, k, under)) = extra.algorithm {
+        let alg = format!("[algorithm]\ntype = \"{}\"\nk = {}\n[algorithm.underlying]\ntype = \"{}\"\n", ty, k, under);
+        toml = toml.replacen("[graph]\n", &format!("{}[graph]\n", alg), 1);
+    }
+    if let Some(line) = &extra.cache_line {
+        let old = "float_cache_policy = { cache_size = 1000, key_precisions = [-1, 0] }\n";
+        assert!(toml.contains(old), "fixture {}: no cache line to replace", label);
+        toml = toml.replacen(old, line, 1);
+    }
+    if let Some(a) = extra.adjustment {
+        toml = toml.replacen("real_world_energy_adjustment = 1.166\n", &format!("real_world_energy_adjustment = {:?}\n", a), 1);
+    }
+    if let Some(gs) = &extra.grades {
+        // one grade per edge, drawn from the list; `grade_table_grade_unit = "decimal"` is already configured
+        let mut text = String::new();
+        for _ in 0..net.edges.len() {
+            text.push_str(&format!("{:?}\n", gs[rng.below(gs.len())]));
+        }
+        std::fs::write(dir.join("grades.txt"), text).expect("grades");
+        toml = toml.replacen("grade_table_grade_unit = \"decimal\"\n", &format!("grade_table_grade_unit = \"decimal\"\ngrade_table_input_file = \"{}/grades.txt\"\n", dir.to_str().unwrap()), 1);
+    }
     match build_app(&dir, &toml) {
         Ok(mut app) => {
             let mut built = std::mem::take(&mut app.input_plugins).into_iter();
@@ -2059,7 +2224,7 @@ fn make_fixture(root: &Path, id: usize, rng: &mut Rng, label: &str, plugins: Vec
                     }
                 }
             }
-            Some((Fixture { net, dir, plugins, traversal, edge_oriented, solution_limit, app, label: label.to_string() }, persist))
+            Some((Fixture { net, dir, plugins, traversal, edge_oriented, solution_limit, app, label: label.to_string(), ksp: extra.algorithm.map(|a| a.0) }, persist))
         }
         Err(e) => {
             eprintln!("C06 harness: cannot build fixture {}: {}", label, e);
@@ -2244,6 +2409,25 @@ pub fn run(ctx: &mut Ctx, profile: Profile) -> &'static str {
         fixtures.push(f);
     }
     id += 1;
+    // k-shortest-paths search configurations (C12: "under every … search configuration"): Yen's algorithm and the
+    // single-via-paths algorithm, vertex and edge oriented, with and without the grid-search plugin
+    if profile == Profile::C12 {
+        for (label, plugins, edge, alg) in [
+            ("yens", vec![], false, ("yens", 3usize, "a*")),
+            ("ksp_single_via", vec![], false, ("ksp_single_via", 2, "dijkstra")),
+            ("grid+yens", vec![PluginSpec::Grid], false, ("yens", 2, "dijkstra")),
+            ("yens_edge_oriented", vec![], true, ("yens", 3, "a*")),
+            ("ksp_single_via_edge_oriented", vec![], true, ("ksp_single_via", 3, "a*")),
+        ] {
+            let traversal = if frng.chance(1, 2) { Traversal::Distance } else { Traversal::Speed };
+            let par = 1 + frng.below(6);
+            let extra = FxExtra { algorithm: Some(alg), ..Default::default() };
+            if let Some(f) = make_fixture_ext(&root, id, &mut frng, label, plugins, traversal, edge, None, par, true, &extra) {
+                fixtures.push(f);
+            }
+            id += 1;
+        }
+    }
     // configured parallelism 0 (a configuration error, not a query)
     // a configured parallelism of 0 is refused when the application is built (fix): the public field is set afterwards,
     // so that the chunking with `self.parallelism = 0` stays exercised
@@ -2320,6 +2504,45 @@ pub fn run(ctx: &mut Ctx, profile: Profile) -> &'static str {
         }
         let n = b.len();
         run_case(ctx, fx, *pc, &b, simple(vec![None, Some(3)], n), "corpus_input_classes", 30);
+    }
+    // every way of giving half of a coordinate pair to a map-matching plugin: a missing field, answered with an error
+    // response (seeded change C12_destination_y_only_accepted: destination_y alone was taken for "no destination")
+    for label in ["vertex_rtree", "edge_rtree"] {
+        let Some(i) = find(label) else { continue };
+        let (fx, pc) = &fixtures[i];
+        let (ox, oy) = fx.net.xy[0];
+        let (dx, dy) = fx.net.xy[1];
+        let full = [("origin_x", coord_json(ox)), ("origin_y", coord_json(oy)), ("destination_x", coord_json(dx)), ("destination_y", coord_json(dy))];
+        let mut b = vec![];
+        for mask in 0..16u32 {
+            let mut m = Map::new();
+            for (bit, (k, v)) in full.iter().enumerate() {
+                if mask & (1 << bit) != 0 {
+                    m.insert(k.to_string(), v.clone());
+                }
+            }
+            let has = |k: &str| m.contains_key(k);
+            let half = has("origin_x") != has("origin_y") || has("destination_x") != has("destination_y");
+            let mut g = gq(Value::Object(m), if half { Expect::Err } else { Expect::Any }, "bad_coordinates", None);
+            if half {
+                g.fail_key = Some("matcher/half-coordinate-pair-accepted");
+            }
+            b.push(g);
+        }
+        let n = b.len();
+        run_case(ctx, fx, *pc, &b, simple(vec![None], n), "corpus_coordinate_pairs", 20);
+    }
+    // the same classes under the k-shortest-paths configurations: a best route of 0 edges (identical origin and
+    // destination) or 1 edge (adjacent), an unreachable destination, out-of-range ids, with and without a query-level k
+    // (seeded change C12_yens_spur_count_underflow: `len() - 2` on the accepted path)
+    for label in ["yens", "ksp_single_via", "grid+yens", "yens_edge_oriented", "ksp_single_via_edge_oriented"] {
+        let Some(i) = find(label) else { continue };
+        let (fx, pc) = &fixtures[i];
+        // two batches (a k-shortest-paths search on at most 38 vertices takes milliseconds: a short fuse)
+        let b = ksp_corpus(fx);
+        let (b1, b2) = b.split_at(10);
+        run_case(ctx, fx, *pc, b1, simple(vec![None, Some(2)], b1.len()), "corpus_ksp_input_classes", 3);
+        run_case(ctx, fx, *pc, b2, simple(vec![None, Some(2)], b2.len()), "corpus_ksp_input_classes", 3);
     }
     if let Some(i) = find("none_edge_oriented") {
         let (fx, pc) = &fixtures[i];
